@@ -1,6 +1,8 @@
 import Driver.Sexp
 import Pcore.Model.SliceHeap
 import Pcore.Generated.SliceIdioms
+import Pcore.Model.Caches
+import Pcore.Generated.CacheFacts
 /-!
 Driver op for C08:  `hist <step>*` (syntax in harness/c08/c08.go).  The history is run on the IMPLEMENTATION-LAYER
 model (`runHeap`) with the idiom table regenerated from the Go source and Go 1.23's growth policy; the line printed
@@ -130,7 +132,9 @@ def opOf : Sexp → Option Op
   | .list [.atom "values", r] => (idxOfSexp r).map .values
   | .list [.atom "entries", r] => (idxOfSexp r).map .entries
   | .list [.atom o, r] =>
-    if o == "ptype" || o == "dtype" || o == "tostring" || o == "tokey" || o == "walk" || o == "ser" then
+    if o == "ser" || o == "deser" then (idxOfSexp r).map .ser
+    else if o == "resolve" then (idxOfSexp r).map .resolve
+    else if o == "ptype" || o == "dtype" || o == "tostring" || o == "tokey" || o == "walk" then
       (idxOfSexp r).map fun r' => .obs r' none
     else none
   | _ => none
@@ -173,18 +177,32 @@ def showShape (st : HState) : String :=
           go (i + 1) rest ids' (s!"{id}.{s.off - minOff sls s.arr}" :: acc)
   " ".intercalate (go 0 st.pool [] [])
 
+/-- are all caches coherent when every cache of every value is asked for before every step (what the harness's
+    snapshots do)?  `stale` reproduces e.g. a `PutAll` that does not reset a cache. -/
+def cachesOK (st : CState) : Bool :=
+  (List.range st.hs.pool.length).all fun i =>
+    match st.hs.slice? i, st.obj[i]? with
+    | some (_, sl), some o =>
+      [CacheField.reduced, .detailed, .index].all fun fld =>
+        match (st.caches o).get fld with
+        | some snap => renderL snap == renderL (st.hs.heap.read sl)
+        | none => true
+    | _, _ => true
+
 def usesAt : Op → Bool
   | .at _ _ => true
   | .get _ _ => true
-  | .tree _ => true
   | _ => false
 
 def exec : List Sexp → String
   | .atom "hist" :: steps =>
     match steps.mapM opOf with
     | some ops =>
-      let st := runHeap goPolicy Pcore.Generated.sliceIdioms ops
-      showState st ++ " | shape " ++ (if ops.any usesAt then "n/a" else showShape st)
+      let cst := runC goPolicy Pcore.Generated.sliceIdioms Pcore.Generated.cacheFacts allFills ops
+      let cst := cst.fills (allFills cst.hs.pool.length)
+      let st := cst.hs
+      showState st ++ " | shape " ++ (if ops.any usesAt then "n/a" else showShape st) ++
+        " | caches " ++ (if cachesOK cst then "ok" else "stale")
     | none => "bad-op"
   | _ => "bad-op"
 
